@@ -9,7 +9,7 @@ import shutil
 import subprocess
 import sys
 import tempfile
-from concurrent.futures import ThreadPoolExecutor
+from concurrent.futures import ThreadPoolExecutor, ProcessPoolExecutor
 
 VERIF = os.path.dirname(os.path.dirname(os.path.abspath(__file__)))
 sys.path.insert(0, os.path.join(VERIF, "rules"))
@@ -22,9 +22,10 @@ PIDS = ["C%02d" % i for i in range(1, 20)]
 
 def run_all(facts_path, repo):
     out = {}
+    facts = Facts(facts_path)  # loaded and normalised once for all properties
     for pid in PIDS:
         mod = importlib.import_module(pid.lower())
-        res = mod.M.run(Ctx(Facts(facts_path), None, "quick", repo))
+        res = mod.M.run(Ctx(facts, None, "quick", repo))
         out[pid] = {(r.key, r.status): r for r in res if r.status != "PASS"}
     return out
 
@@ -65,6 +66,13 @@ def one(patch, base):
         shutil.rmtree(tmp, ignore_errors=True)
 
 
+BASE = None
+
+
+def one_item(it):
+    return one(it[1], BASE)
+
+
 def main():
     items = []
     outp = os.path.join(VERIF, "seeded", "MATRIX.json")
@@ -81,8 +89,10 @@ def main():
     fpath, _ = factbase.facts_for("/repo", "")
     base = {pid: set(k for k in d) for pid, d in run_all(fpath, "/repo").items()}
     rows = {}
-    with ThreadPoolExecutor(max_workers=12) as ex:
-        for (name, patch), r in zip(items, ex.map(lambda it: one(it[1], base), items)):
+    global BASE
+    BASE = base
+    with ProcessPoolExecutor(max_workers=12) as ex:
+        for (name, patch), r in zip(items, ex.map(one_item, items)):
             rows[name] = r
             if r["status"] == "ran":
                 print("%-28s %s" % (name, ", ".join("%s[%s]" % (p, v[0].split(" ")[0]) for p, v in sorted(r["caught"].items())) or "MISSED"))
